@@ -72,10 +72,38 @@ def handle7 (op : String) (a obs : List String) : Option Verdict :=
         if onSession then Worker.connectRun eff .open_ != Worker.connectRun content .open_
         else Worker.controlRun eff .open_ none != Worker.controlRun content .open_ none
       | none => false
+    -- the outcome the torn interpretation predicts (where the harness's own timing does not enter:
+    -- the session-stream targets on both sides, the control-stream targets on the server side)
+    let tornOutcome : Option String :=
+      match loopView target cut with
+      | none => none
+      | some (content, c) =>
+        let eff := Select.effective [⟨content.take c, true⟩, ⟨content.drop c, false⟩]
+        if target == "capsule" then
+          some (match Worker.connectRun eff .open_ with
+            | some (.appClosed c r) => connErr (.appClosed c r)
+            | some (.proto e) => h3 e
+            | _ => "timeout")
+        else if target == "grease_sess" then
+          some (match Worker.connectRun eff .open_ with
+            | none => "alive"
+            | some (.proto e) => h3 e
+            | some (.appClosed c r) => connErr (.appClosed c r)
+            | some .notConnected => "not_connected")
+        else if get a 1 == "server" then
+          some (match Worker.controlRun eff .open_ none with
+            | (some _, none) => "established"
+            | (_, some (.proto e)) => h3 e
+            | _ => "timeout")
+        else none
+    let explained : Bool := match tornOutcome with
+      | some t => field obs "outcome" == t
+      | none => true
     let lenS := field obs "len"
     let asWhole := field obs "outcome" == wholeOutcome && field obs "peer_close" == wholePeer
     let model :=
-      if asWhole || !(tearPossible && tornChanges) then [s!"outcome={wholeOutcome}", s!"peer_close={wholePeer}", s!"len={lenS}"]
+      if asWhole || !(tearPossible && tornChanges && explained) then
+        [s!"outcome={wholeOutcome}", s!"peer_close={wholePeer}", s!"len={lenS}"]
       else obs
     let prop := check [("no_trap", !isTrap obs),
       ("segmentation_and_interleaving_independent", asWhole)]
